@@ -91,6 +91,17 @@ def mutations(r, data, per_field=3, extra=12):
         for v in r.sample(vals, min(per_field, len(vals))):
             if v % (1 << (8 * width)) != cur:
                 yield ("%s@%d=%d" % (name, off, v), set_field(data, off, width, v))
+    # two fields at once (a record length together with a length inside the record): guards that rely on an
+    # earlier check of the other field only show under such pairs
+    mids = [24, 25, 1000, 65535, 65537, 1 << 20, 1 << 27, (1 << 28) + 3, 1 << 30, (1 << 31) - 9, 1 << 31, (1 << 32) - 1, 1 << 40, (1 << 63) - 1, 1 << 63, (1 << 64) - 1]
+    recl = [f for f in fs if f[2].startswith("reclen")]
+    inner = [f for f in fs if not f[2].startswith("reclen") and ("len" in f[2] or "size" in f[2])]
+    for _ in range(extra):
+        if not recl or not inner:
+            break
+        (o1, w1, n1), (o2, w2, n2) = r.choice(recl), r.choice(inner)
+        v1, v2 = r.choice(mids), r.choice(mids)
+        yield ("%s@%d=%d+%s@%d=%d" % (n1, o1, v1, n2, o2, v2), set_field(set_field(data, o1, w1, v1), o2, w2, v2))
     recs = records(data[8:-8], 8)
     for _ in range(extra):
         k = r.random()
